@@ -163,10 +163,11 @@ def run(run):
                                          "reference_fail": [m.fail_index, m.fail_kind]} if run.evaluations < 3 else None)
                         run.count(f"kind_{kind}")
                         run.count(f"mode_{mode}")
-            if thorough:
+            if thorough or bases % 8 == 1:
                 from vlib import probes
 
-                probes.failpoint_sweep(run, base, scratch, check_stream=True)
+                # source-free failpoints: every line event inside node-processing code (a sample of them in quick)
+                probes.failpoint_sweep(run, base, scratch, check_stream=True, max_points=120 if thorough else 25)
     finally:
         shutil.rmtree(scratch, ignore_errors=True)
     run.floor("traced_runs", 100)
